@@ -50,6 +50,9 @@ class CallsMixin:
             r = self.call_idiom(e, n, st, d)
             if r is not None:
                 return r
+        if n == "len" and len(e.args) == 1 and isinstance(e.args[0], ast.Call) and isinstance(e.args[0].func, ast.Name) and e.args[0].func.id == "set" \
+                and len(e.args[0].args) == 1 and isinstance(e.args[0].args[0], ast.Call) and getattr(e.args[0].args[0].func, "id", "") == "map":
+            return self.count_distinct_idiom(e.args[0].args[0], st, d)
         if n == "dict" and len(e.args) == 1 and isinstance(e.args[0], ast.ListComp) and len(e.keywords) == 1 and e.keywords[0].arg is None:
             return self.dict_merge_idiom(e, st, d)
         if n == "filter" and len(e.args) == 2 and isinstance(e.args[0], ast.Lambda):
@@ -155,6 +158,9 @@ class CallsMixin:
             if v.ty[0] == "str":
                 if v.py == "nan":
                     return [(s1, V(("real",), z3.Const(fresh_name("nan"), z3.RealSort()), py="nan"))]
+                if v.py == "inf":
+                    self.used_assumptions.add("A-FINITE: float('inf') is a constant INF larger than every price read from a market (and -INF smaller)")
+                    return [(s1, V(("real",), INF, py="inf"))]
                 raise Unsupported("float(str)")
             if v.ty[0] == "dyn":
                 s1.oblige("float()-of-number-json", z3.Or(dyn_is_int(v.term), dyn_is_real(v.term), dyn_is_bool(v.term)), "implicit")
@@ -328,6 +334,11 @@ class CallsMixin:
         if n == "list" and isinstance(a0, ast.Call) and isinstance(a0.func, ast.Name) and a0.func.id == "filter":
             lam, seq = a0.args
             return self.filter_list(lam, seq, st, d)
+        if n == "sum" and isinstance(a0, ast.Call) and isinstance(a0.func, ast.Name) and a0.func.id == "map" and len(e.args) == 1:
+            out = []
+            for s1, lst in self.comprehension_map(a0.args[0], a0.args[1], st, d):
+                s1 = s1.copy(); out.append((s1, self.sum_list(s1, lst)))
+            return out
         if n == "sum" and isinstance(a0, ast.ListComp):
             out = []
             rest = e.args[1:]
@@ -514,6 +525,11 @@ class CallsMixin:
                 raise Unsupported("super() outside a method")
             bases = self.src.mro(cls)[1:]
             for b in bases:
+                if ("m", b, f.attr) in self.specs:
+                    out = []
+                    for s1, pos, kw in self.eval_args(e, st, d):
+                        out += self.specs[("m", b, f.attr)](self, s1.copy(), s1.env["self"], pos, kw, e)
+                    return out
                 if f"{b}.{f.attr}" in self.src.funcs:
                     fn = self.src.funcs[f"{b}.{f.attr}"][0]
                     out = []
@@ -558,6 +574,25 @@ class CallsMixin:
             s1.assume(z3.ForAll([i], z3.Implies(z3.And(0 <= i, i < n), z3.Exists([j], z3.And(0 <= j, j < nx, eq_ix)))))
             s1.assume(z3.ForAll([j], z3.Implies(z3.And(0 <= j, j < nx), z3.Exists([i], z3.And(0 <= i, i < n, eq_ix)))))
             out.append((s1, r))
+        return out
+
+    def count_distinct_idiom(self, mapcall, st, d):
+        """len(set(map(f, xs))): the number of distinct values -- characterised by: 0 <= d <= len, d == 0 iff empty, d <= 1 iff all values equal"""
+        out = []
+        for s1, lst in self.comprehension_map(mapcall.args[0], mapcall.args[1], st, d):
+            s1 = s1.copy()
+            ety = lst.ty[1]; n = s1.length(lst.term, ety)
+            el = s1.elems(lst.term, ety)
+            i, j = z3.Int(fresh_name("i_cd")), z3.Int(fresh_name("j_cd"))
+            if ety[0] == "opt":
+                nn = s1.elems(lst.term, ety, "none")
+                same = z3.And(z3.Select(nn, i) == z3.Select(nn, j), z3.Or(z3.Select(nn, i), z3.Select(el, i) == z3.Select(el, j)))
+            else:
+                same = z3.Select(el, i) == z3.Select(el, j)
+            dcount = z3.Const(fresh_name("distinct"), z3.IntSort())
+            s1.assume(z3.And(dcount >= 0, dcount <= n, (dcount == 0) == (n <= 0),
+                             (dcount <= 1) == z3.ForAll([i, j], z3.Implies(z3.And(0 <= i, i < n, 0 <= j, j < n), same))))
+            out.append((s1, V(("int",), dcount)))
         return out
 
     def dict_merge_idiom(self, e, st, d):
@@ -706,9 +741,15 @@ class CallsMixin:
 
     def random_method(self, recv, name, pos, kw, st, node):
         self.used_assumptions.add("random.Random: random() in [0,1); randint(a,b) in [a,b]; sample(xs,len(xs)) is a permutation; gauss/uniform/choices fresh values")
-        st.trace = st.trace + [("Draw", recv.term, name)]
         if name == "random":
-            u = z3.Const(fresh_name("u"), z3.RealSort()); st.assume(z3.And(0 <= u, u < 1)); return [(st, V(("real",), u))]
+            u = z3.Const(fresh_name("u"), z3.RealSort()); st.assume(z3.And(0 <= u, u < 1))
+            st.trace = st.trace + [("Draw", None, (recv.term, u))]
+            return [(st, V(("real",), u))]
+        if name in ("gauss", "normalvariate", "expovariate"):
+            g = z3.Const(fresh_name(name), z3.RealSort())
+            st.trace = st.trace + [("Draw", None, (recv.term, g))]
+            return [(st, V(("real",), g))]
+        st.trace = st.trace + [("Draw", None, (recv.term,))]
         if name == "randint":
             a, b = self.as_int(pos[0], st).term, self.as_int(pos[1], st).term
             n = z3.Const(fresh_name("randint"), z3.IntSort()); st.assume(z3.And(a <= n, n <= b)); return [(st, V(("int",), n))]
